@@ -289,3 +289,23 @@ MANIFEST_TEXT['C17'] = dict(
                'breakages by solver-exhaustive bounded differential.',
     level_note='Trusted: z3 datalog engine, PLY table construction and driver, CrossHair.')
 _finalise()
+
+PROPS['C14'] = dict(
+    modules=['harness.c14_readers'], level='other',
+    files=['pysmi/reader/base.py', 'pysmi/reader/localfile.py', 'pysmi/reader/zipreader.py', 'pysmi/reader/url.py', 'pysmi/compat.py'],
+    explanation=XH + '. C14: getMibVariants is interpreted from its AST into z3 terms over a bounded symbolic name (length/array encoding) and '
+                'every produced name must be a documented variant; FileReader / ZipReader / URL dispatch run symbolically over in-memory models of '
+                'directory trees and nested archives.',
+    functions=['pysmi.reader.base.AbstractReader.getMibVariants (AST -> SMT)', 'pysmi.reader.localfile.FileReader.getData/getSubdirs/loadIndex/getMibVariants',
+               'pysmi.reader.zipreader.ZipReader.__init__/_readZipDirectory/_readZipFile/getData', 'pysmi.reader.url.getReadersFromUrls'],
+    stubs=['os / open replaced in pysmi.reader.localfile by an in-memory tree', 'zipfile / open replaced in pysmi.reader.zipreader by an archive model '
+           '(nested tuples)', 'reader classes in pysmi.reader.url replaced by recording doubles'],
+    bounds='names <= 8 (quick) / 16 (thorough) characters for the SMT part; trees of depth <= 2, archives nested <= 3',
+    outside=['real ZIP decoding, real directories', 'HTTP/FTP readers', 'default port chosen for https (not part of the statement)',
+             'file:// URLs that name a .zip (not pinned down by the documentation)'],
+    assumptions=['module names consist of letters, digits and hyphens'])
+MANIFEST_TEXT['C14'] = dict(
+    technique='AST->SMT bounded-string encoding of getMibVariants (z3) + CrossHair symbolic execution of the readers over in-memory FS/ZIP models', smt=True,
+    level_text='getMibVariants: every path x every name up to the bound decided by z3; readers: solver-exhaustive over the modelled tree/archive shapes.',
+    level_note='Trusted: z3, CrossHair; the FS/ZIP models.')
+_finalise()
